@@ -1,5 +1,5 @@
 (** Model of [SortingAttr::cmp_bench_arg_names] ([src/config/mod.rs:124-195],
-    as it is after the two [fix:] commits) and of the argument sorting in
+    as it is after the three [fix:] commits 758f795, 1ce8e0b, 6cb0c72) and of the argument sorting in
     [EntryTree::sort_by_attr] ([src/entry/tree.rs:228-233]).
 
     Integer parsing ([str::parse::<u128>], [str::parse::<i128>]) is modelled
@@ -60,6 +60,21 @@ Definition int_val (s : bytes) : option Z :=
   | None => parse_i128 s
   end.
 
+(** [s.parse::<u128>().is_ok() || s.parse::<i128>().is_ok()]. *)
+Definition is_int (s : bytes) : bool :=
+  match parse_u128 s with
+  | Some _ => true
+  | None => match parse_i128 s with Some _ => true | None => false end
+  end.
+
+(** [bool::cmp]: [false < true]. *)
+Definition bool_cmp (a b : bool) : comparison :=
+  match a, b with
+  | false, true => Lt
+  | true, false => Gt
+  | _, _ => Eq
+  end.
+
 (** * The comparator *)
 
 Section ArgCmp.
@@ -67,10 +82,15 @@ Variable V : Type.
 Variable vcmp : V -> V -> comparison.
 Variable fparse : bytes -> option V.
 
-(** "Compare as floats", then the natural order. *)
+(** "Compare as floats" (among names equal as floats, integers come first:
+    [is_int(b).cmp(&is_int(a))]), then the natural order. *)
 Definition float_cmp (a b : bytes) : comparison :=
   match fparse a, fparse b with
-  | Some x, Some y => vcmp x y
+  | Some x, Some y =>
+      match vcmp x y with
+      | Eq => bool_cmp (is_int b) (is_int a)
+      | o => o
+      end
   | Some _, None => Lt
   | None, Some _ => Gt
   | None, None => natural_cmp a b
@@ -117,10 +137,21 @@ Definition sort_args (attr : sort_attr) (reverse : bool) (names : list bytes) : 
 (** * Specification (declarative; does not go through the comparator's code)
 
     A name is a number (it has a value) or it is not.  Numbers come first, by
-    value; other names follow in natural order (sequence of token keys). *)
+    value; among numbers of equal (float) value the integers come first, by
+    their exact value, then the other spellings; other names follow in natural
+    order (sequence of token keys). *)
 Definition spec_name_cmp (a b : bytes) : comparison :=
   match fparse a, fparse b with
-  | Some x, Some y => vcmp x y
+  | Some x, Some y =>
+      match vcmp x y with
+      | Eq => match int_val a, int_val b with
+              | Some p, Some q => (p ?= q)%Z
+              | Some _, None => Lt
+              | None, Some _ => Gt
+              | None, None => Eq
+              end
+      | o => o
+      end
   | Some _, None => Lt
   | None, Some _ => Gt
   | None, None => natural_spec a b
@@ -251,6 +282,29 @@ Definition dec_parse (s : bytes) : option fval :=
            | None => if is_inf_word body then Some (if neg then FNegInf else FPosInf) else None
            end
   end.
+
+(** A recorded oracle: what [str::parse::<f64>] returned for each name of the
+    case on the implementation side (history-driven runs), as an integer key
+    that orders like the float ([-0.0] and [0.0] share a key; NaN and parse
+    errors are [None]). *)
+Fixpoint tbl_oracle (tbl : list (bytes * option Z)) (s : bytes) : option Z :=
+  match tbl with
+  | [] => None
+  | (k, v) :: r => if bytes_eqb k s then v else tbl_oracle r s
+  end.
+
+Definition arg_cmp_tbl (tbl : list (bytes * option Z)) := arg_cmp Z Z.compare (tbl_oracle tbl).
+Definition sort_args_tbl (tbl : list (bytes * option Z)) := sort_args Z Z.compare (tbl_oracle tbl).
+Definition sort_sb_tbl (tbl : list (bytes * option Z)) := sort_sb Z Z.compare (tbl_oracle tbl).
+Definition spec_arg_cmp_tbl (tbl : list (bytes * option Z)) := spec_arg_cmp Z Z.compare (tbl_oracle tbl).
+
+(** The grammar of the recorded oracle is the modelled one: a name got a
+    (non-NaN) float exactly when [dec_parse] accepts it. *)
+Definition tbl_grammar_ok (tbl : list (bytes * option Z)) : bool :=
+  forallb (fun kv => match snd kv, dec_parse (fst kv) with
+                     | Some _, Some _ | None, None => true
+                     | _, _ => false
+                     end) tbl.
 
 (** The instances the extracted driver runs. *)
 Definition name_cmp_dec := name_cmp fval fval_cmp dec_parse.
